@@ -617,6 +617,19 @@ pub fn gen_c03(out: &mut Out, rng: &mut Rng, thorough: bool) {
         monitor_line(out, &format!("cli {kind} - | call {} r={r} | call RSI r={r}", request(&req)));
         monitor_line(out, &format!("srv {kind} svc=R=RC:1,X=02,D,R=RSI:01:1:AA r={r}"));
     }
+    // every byte as the function code of a request, whatever the service then does with it
+    // (answers, refuses with an exception, declines): the connection task must not panic
+    for kind in ["tcp", "rtu"] {
+        for fc in 0..=255u8 {
+            for svc in ["R=RC:1", "X=02", "X=0B", "D"] {
+                let body = rng.bytes_in(0, 5);
+                let mut pdu = vec![fc];
+                pdu.extend(&body);
+                let f = if kind == "tcp" { spec::mbap(rng.u16(), rng.unit(), &pdu) } else { spec::rtu_frame(rng.unit(), &pdu) };
+                monitor_line(out, &format!("srv {kind} svc={svc} r=d{}", hex_raw(&f)));
+            }
+        }
+    }
     // a validly framed but damaged reply / request and then the peer closes for good (every
     // further read reports the end of the stream): the call / the connection task must end
     for i in 0..(if thorough { 6_000 } else { 600 }) {
